@@ -18,6 +18,17 @@ CLAIMED = {
     'C06': ('apply_formatting events judged by the C06 clauses (frame, gain, bottom/top display, no-op)', '5 C06'),
     'C07': ('remove_formatting/clear_formatting events judged by the C07 clauses', '5 C07'),
     'C08': ('frame, identity and aliasing clauses evaluated on every event with all live objects re-projected', '5 C08'),
+    'C10': ('every str-like method call of random histories compared by TLC with the logged CPython str result on the same base '
+            'text (documented deviations computed in spec/AnsiText.tla); Text.tla re-derives the ASCII fragment and is audited '
+            'against CPython on every call', '5 C10'),
+    'C11': ('piece offsets / match positions computed by spec/Text.tla (true offsets), per-character settings compared at those '
+            'offsets on non-uniformly formatted values; exhaustive family over {a,b} texts x separators', '5 C11'),
+    'C12': ('padding contracts (text, original keeps settings, fill settings by extend flag) and the format-spec grammar of '
+            'spec/FormatSpec.tla; format() output equals and displays like pad+apply on a copy', '5 C12'),
+    'C13': ('constructor forms and shared methods run in lockstep on an AnsiString and its AnsiStr twin; TLC compares every pair; '
+            'payload = rendering on every AnsiStr snapshot', '5 C13'),
+    'C16': ('format_matching/unformat_matching against the explicit loop of apply/remove over logged re.finditer spans', '5 C16'),
+    'C17': ('ansi_settings_at/settings_at/find_settings results judged by TLC against the per-character table of the pre-state', '5 C17'),
     'C15': ('valid/parsable of every setting text over an 11-symbol alphabet (exhaustive to a stated length) compared by TLC with '
             'the grammar in spec/SGR.tla (SemOf) / AnsiFuncs.tla; strip/verbatim/conjunction clauses on renderings', '5 C15'),
     'C18': ('every code list over a 12-code alphabet (exhaustive to a stated length, 3 encodings x add_erroneous) judged by TLC '
